@@ -48,17 +48,17 @@ def grammar(tier):
     if tier == 'quick':
         bodies_a = ['nop', 'stop'] + [('fire', p) for p in EPRIO]
         bodies_b = ['nop', 'stop'] + [('fire', p) for p in (-1, 0, 2)]
-        bodies_c = ['nop', 'stop']
+        bodies_c = ['nop', 'stop', 'stopgen']
         h_a = handler_sets(bodies_a, [(0, 1)])
         h_b = handler_sets(bodies_b, [(-1, 2.5)])
-        h_c = [((0, 'nop'),), ((0, 'nop'), (1, 'stop'))]
+        h_c = [((0, 'nop'),), ((0, 'nop'), (1, 'stop')), ((0, 'nop'), (1, 'stopgen'))]
         ext1 = [('A', p) for p in EPRIO] + [('B', 0), ('B', 2)]
         mids = [None, ('A', -1), ('A', 2), ('B', 0)]
-        ext3 = [('A', -1), ('A', 0), ('A', 2), ('B', 0)]
+        ext3 = [('A', -1), ('A', 2), ('B', 0)]
     else:
         bodies_a = ['nop', 'stop'] + [('fire', p) for p in EPRIO]
         bodies_b = ['nop', 'stop'] + [('fire', p) for p in EPRIO]
-        bodies_c = ['nop', 'stop']
+        bodies_c = ['nop', 'stop', 'stopgen']
         h_a = handler_sets(bodies_a, [(0, 1), (-1, 2.5)])
         h_b = handler_sets(bodies_b, [(-1, 2.5)])
         h_c = handler_sets(bodies_c, [(0, 1)])
@@ -106,6 +106,12 @@ class Run:
             if body == 'stop':
                 run.log.append(('stopcall', event.eid, hp))
                 event.stop()
+            elif body == 'stopgen':
+                # stops the event and hands back a generator (e.g. the result of another coroutine): still a stop
+                run.log.append(('stopcall', event.eid, hp))
+                event.stop()
+                run.depth -= 1
+                return (x for x in ())
             elif body != 'nop':
                 run.fire(nxt, body[1], by=event.eid)
             run.depth -= 1
